@@ -121,22 +121,18 @@ def go_sequence(rng):
     return bytes(out), "".join(shape)
 
 
-def is_ext(xtoks):
-    for t, p, lit in xtoks:
-        if t in EXT_TOKENS or (t == 2 and lit[:1] == b"#"):
-            return True
-    return False
-
-
 def run(ctx):
     ctx.regen(["scantok"])
     sc.gen_notes(ctx)
     ctx.prove("C16")
     R = sc.Runner(ctx)
-    groups = []          # (name, [src], compare_real_scanners)
+    # (name, [src], modes, dialects run, how the two real scanners are compared)
+    #   "always": they must agree unless the XGo scanner takes an extension branch
+    #   "go_like": they must agree wherever the hypothesis of C16_xgo_eq_go_on_go_lexemes holds
+    groups = []
     num_alpha = [a for a in NUM_ALPHA if a not in (b"7", b"+")] if ctx.quick else NUM_ALPHA
     nums = [s for s in sc.exhaustive(num_alpha, ctx.n(4, 5)) if s]
-    groups.append(("numeric", nums, True))
+    groups.append(("numeric", nums, (True,), "xg", "always"))
     strs = []
     for q in (b'"', b"'", b"`"):
         for k in (0, 1, 2):
@@ -144,90 +140,86 @@ def run(ctx):
                 body = b"".join(t)
                 strs.append(q + body + q)
                 strs.append(q + body)
-    groups.append(("string", strs, True))
+    groups.append(("string", strs, (True,), "xg", "always"))
     seqs, shapes = [], {}
     for _ in range(ctx.n(5000, 200000)):
         s, sh = go_sequence(ctx.rng)
         seqs.append(s)
         k = "lexemes=%d" % len(sh)
         shapes[k] = shapes.get(k, 0) + 1
-    groups.append(("go-lexeme-sequence", seqs, True))
-    mal = []
-    for _ in range(ctx.n(3000, 100000)):
-        mal.append(sc.random_sequence(ctx.rng, malformed=60)[0])
-    groups.append(("malformed-or-extended", mal, False))
-    groups.append(("finding-set", list(FINDING_SET), True))
+    groups.append(("go-lexeme-sequence", seqs, (True, False), "g", "always"))
+    core = sc.tok_exhaustive(sc.TOK_CORE, ctx.n(5, 6))
+    groups.append(("exhaustive-tokens-core", core, (True,), "g", "go_like"))
+    wide = sc.tok_exhaustive(sc.TOK_WIDE, 3)
+    groups.append(("exhaustive-tokens-wide", wide, (True, False), "g", "go_like"))
+    st = [sc.stateful_sequence(ctx.rng, extra=(b"//c\n", b"/*c*/", b"/*\n*/", b"return", b"07", b"0x1p2"))[0] for _ in range(ctx.n(5000, 100000))]
+    groups.append(("stateful-sequences", st, (True, False), "g", "go_like"))
+    mal = [sc.random_sequence(ctx.rng, malformed=60)[0] for _ in range(ctx.n(3000, 100000))]
+    groups.append(("malformed-or-extended", mal, (True, False), "xg", "go_like"))
+    groups.append(("finding-set", list(FINDING_SET), (True, False), "g", "always"))
 
     cases, meta = [], []
-    for name, srcs, cmp_ in groups:
+    for name, srcs, modes, dialects, how in groups:
         for s in srcs:
-            for m in (True, False):
-                for d in ("x", "g"):
+            for m in modes:
+                for d in dialects:
                     cases.append(sc.case(d, m, s))
-                    meta.append((name, cmp_))
+                    meta.append((name, how))
     impl, model = R.correspond("scan(XGo)~scanner.Scan & scan(Go)~go/scanner.Scan", cases)
-    # C: the real scanners against each other
-    stats = {"compared": 0, "skipped_extension": 0, "skipped_ellipsis_dimension": 0, "not_compared_group": 0}
-    per_group = {}
-    ext_of = {}
-    for i in range(0, len(cases), 4):          # order: (c,x) (c,g) (n,x) (n,g)
-        src = sc.src_of(cases[i])
-        name, cmp_ = meta[i]
-        stx, tx, ex = sc.parse_result(impl[i][0])
-        ext = stx != "" or is_ext(tx)
-        for j in (i, i + 2):
-            if not cmp_:
-                stats["not_compared_group"] += 1
-                continue
-            if ext:
-                stats["skipped_extension"] += 1
-                continue
-            if name in ("numeric", "string") and (b"..." in src):
-                stats["skipped_ellipsis_dimension"] += 1
-                continue
-            a, b = impl[j][0], impl[j + 1][0]
-            sa, ta, ea = sc.parse_result(a)
-            sb, tb, eb = sc.parse_result(b)
-            stats["compared"] += 1
-            per_group[name] = per_group.get(name, 0) + 1
-            if sa or sb or ta != tb or set(ea) != set(eb):
-                mode = cases[j][1]
-                what = "tokens" if ta != tb else "error offsets"
-                ctx.fail(sc.key_of("src", mode.encode() + src),
-                         "XGo scanner and go/scanner differ (%s) on %r (mode %s)" % (what, src, mode),
-                         {"src_repr": repr(src), "src_hex": src.hex(), "mode": mode, "group": name, "xgo": a[:400], "go": b[:400]})
-    # the hypothesis of C16_xgo_eq_go_on_go_lexemes, evaluated by the extracted model: wherever it
-    # holds the two real scanners must return exactly the same tokens and the same error sequence
-    xcases = [cases[i] for i in range(0, len(cases), 2)]                    # the XGo line of every (src, mode)
-    pred = R.run_pred(xcases)
-    gl = {"go_like": 0, "go_like_in_sequences": 0, "sequences": 0}
-    for k, (g, _) in enumerate(pred):
-        i = 2 * k
-        name = meta[i][0]
-        if name == "go-lexeme-sequence":
-            gl["sequences"] += 1
-            gl["go_like_in_sequences"] += int(g)
-        if not g:
+    # the hypothesis of C16_xgo_eq_go_on_go_lexemes, evaluated by the extracted model
+    gidx = [i for i, c in enumerate(cases) if c[0] == "g" and meta[i][0] not in ("numeric", "string")]
+    pred = dict(zip(gidx, R.run_pred(["x" + cases[i][1:] for i in gidx])))
+    stats = {"compared": 0, "skipped_extension": 0, "skipped_ellipsis_dimension": 0, "go_like": 0, "go_like_compared": 0}
+    per_group, gl_group, verd = {}, {}, {}
+    for i, c in enumerate(cases):
+        if c[0] != "g":
             continue
-        gl["go_like"] += 1
-        if impl[i][0] != impl[i + 1][0]:
-            src, mode = sc.src_of(cases[i]), cases[i][1]
-            ctx.fail(sc.key_of("src", mode.encode() + src),
-                     "go_like holds in the model but the real scanners differ on %r (mode %s)" % (src, mode),
-                     {"src_repr": repr(src), "src_hex": src.hex(), "mode": mode, "group": name, "xgo": impl[i][0][:400], "go": impl[i + 1][0][:400]})
-    distinct = len(set(c[3:] for c in cases))
-    ctx.cover(evaluations=len(cases), distinct_nontrivial=distinct,
-              samples=[{"case": cases[k], "impl": impl[k][0][:160]} for k in (40, len(nums) * 4 + 200, len(cases) - 8 * len(FINDING_SET) - 5, len(cases) - 3)],
+        name, how = meta[i]
+        v = impl[i][1]
+        verd[v] = verd.get(v, 0) + 1
+        src = None
+        g = pred.get(i, (False, False))[0]
+        if g:
+            stats["go_like"] += 1
+            gl_group[name] = gl_group.get(name, 0) + 1
+        fail = None
+        if g:
+            # theorem: equal results, errors included, in the same order
+            stats["go_like_compared"] += 1
+            if v != "eq":
+                fail = "go_like holds in the model but the real scanners differ (%s)" % v
+        if how == "always" and fail is None:
+            src = sc.src_of(c)
+            if v == "ext":
+                stats["skipped_extension"] += 1
+            elif name in ("numeric", "string") and b"..." in src:
+                stats["skipped_ellipsis_dimension"] += 1
+            else:
+                stats["compared"] += 1
+                per_group[name] = per_group.get(name, 0) + 1
+                if v not in ("eq", "eqset"):
+                    fail = "XGo scanner and go/scanner differ (%s)" % v
+        if fail:
+            src = src if src is not None else sc.src_of(c)
+            mode = c[1]
+            ctx.fail(sc.key_of("src", mode.encode() + src), "%s on %r (mode %s)" % (fail, src, mode),
+                     {"src_repr": repr(src), "src_hex": src.hex(), "mode": mode, "group": name, "go": impl[i][0][:400], "verdict": v})
+    ng = sum(1 for c in cases if c[0] == "g")
+    ctx.cover(evaluations=len(cases), distinct_nontrivial=len(set(c[3:] for c in cases)),
+              samples=[{"case": cases[k], "impl": impl[k][0][:160], "verdict": impl[k][1]} for k in (41, 2 * len(nums) + 201, len(cases) - 2 * len(FINDING_SET) - 9, len(cases) - 3)],
               rule="exhaustive: %d numeric spellings of <=%d symbols over %s; %d string/char/raw spellings (<=2 atoms of %d escape forms, closed "
-                   "and unclosed); %d seeded Go-lexeme sequences (safe generator: no XGo extension, nothing of the finding-set "
-                   "dimensions: no '~', no line end after '!'/'...', comments only where no semicolon is pending, no line number > 1<<30); "
-                   "%d mutated/extended sequences (model~impl only, the two real scanners are NOT compared on them); the fixed finding set "
-                   "(%d inputs). Every source x {comments on, off} x {XGo, go/scanner}. The real scanners are compared where the XGo "
-                   "scanner's output has no extension token; numeric/string spellings containing '...' are left to the finding set. "
-                   "distinct = distinct source" %
-                   (len(nums), ctx.n(4, 5), b" ".join(num_alpha).decode(), len(strs), len(ESC_ATOMS), len(seqs), len(mal), len(FINDING_SET)),
-              exhaustive_part=4 * (len(nums) + len(strs)), compare_stats=stats, theorem_hypothesis_stats=gl, compared_per_group=per_group,
-              sequence_shape_histogram=dict(sorted(shapes.items())))
+                   "and unclosed); token-level: all %d sequences of <=%d lexemes over ( ) ; ... ! newline a blank and all %d sequences of <=3 "
+                   "lexemes over a %d-lexeme alphabet (state carried across tokens); %d seeded Go-lexeme sequences (safe generator: no XGo "
+                   "extension, nothing of the finding-set dimensions); %d seeded stateful sequences of 4-12 lexemes; %d mutated/extended "
+                   "sequences; the fixed finding set (%d inputs). K-diff on every case (both dialects for numeric/string/malformed, go/scanner "
+                   "for the rest - the XGo dialect is tied on these sets by C15). The two real scanners are compared (a) on the numeric/"
+                   "string/Go-sequence/finding sets unless the XGo output has an extension token (numeric/string spellings containing "
+                   "'...' are left to the finding set), (b) on every case of the other sets where the model's go_like holds (then the "
+                   "results must be identical, errors included). distinct = distinct source" %
+                   (len(nums), ctx.n(4, 5), b" ".join(num_alpha).decode(), len(strs), len(ESC_ATOMS), len(core), ctx.n(5, 6), len(wide),
+                    len(sc.TOK_WIDE), len(seqs), len(st), len(mal), len(FINDING_SET)),
+              exhaustive_part=2 * (len(nums) + len(strs)) + len(core) + 2 * len(wide), compare_stats=stats, compared_per_group=per_group,
+              go_like_per_group=gl_group, go_cases=ng, real_scanner_verdicts=verd, sequence_shape_histogram=dict(sorted(shapes.items())))
     ctx.trust("modelled, not verified: scanner/scanner.go and $GOROOT/src/go/scanner/scanner.go (one Gallina text with a dialect switch), "
               "each tied to its implementation by the differential run")
     ctx.assume("the installed toolchain's go/scanner is the reference (go version recorded by the harness build)")
